@@ -41,6 +41,7 @@ def wf_proto(self: Ref['mqtt.client.pubsubs.MQTTProtocol']) -> bool:
 
 
 # C19: protocol code reaches the factory's per-address tables only through self.factory.<table>[self.addr]
-ACCESS_POLICY = {'class': 'mqtt.client.base.MQTTBaseProtocol', 'key': 'addr', 'props': ['C19'],
+ACCESS_POLICY = {'class': 'mqtt.client.base.MQTTBaseProtocol', 'key': 'addr', 'props': ['C19'], 'tag': 'g_addr',
+                 'tagged': ['mqtt.pdu.PUBLISH', 'mqtt.pdu.PUBREL', 'mqtt.pdu.SUBSCRIBE', 'mqtt.pdu.UNSUBSCRIBE'],
                  'tables': ['queuePublishTx', 'windowPublish', 'windowPubRelease', 'windowPubRx', 'windowSubscribe',
                             'windowUnsubscribe']}
